@@ -119,7 +119,7 @@ End Congr.
 
 (* ---------- (2) the comparers of pkg/cmp on guarded values are their ideal leaves ---------- *)
 (* [nd]: no DurationValueWithin in the configuration (else no saturating Duration in the value) *)
-Definition lguard (nd : bool) (a : cval) : bool := val_guard false a && (nd || negb (has_sat_duration a)).
+Definition lguard (nd : bool) (a : cval) : bool := val_guard false a && (nd || negb (has_wide_nanos a)).
 
 Lemma val_guard_CM top ty v fs u kv :
   val_guard top (CM ty v fs u) = true -> In kv fs -> val_guard false (snd kv) = true.
@@ -127,10 +127,10 @@ Proof.
   cbn [val_guard]. intros H Hi. apply andb_true_iff in H. destruct H as [_ H].
   rewrite forallb_forall in H. specialize (H _ Hi). destruct kv. exact H.
 Qed.
-Lemma has_sat_CM ty v fs u kv : has_sat_duration (CM ty v fs u) = false -> In kv fs -> has_sat_duration (snd kv) = false.
+Lemma has_sat_CM ty v fs u kv : has_wide_nanos (CM ty v fs u) = false -> In kv fs -> has_wide_nanos (snd kv) = false.
 Proof.
-  cbn [has_sat_duration]. intros H Hi. apply orb_false_iff in H. destruct H as [_ H].
-  destruct (has_sat_duration (snd kv)) eqn:E; [|reflexivity].
+  cbn [has_wide_nanos]. intros H Hi. apply orb_false_iff in H. destruct H as [_ H].
+  destruct (has_wide_nanos (snd kv)) eqn:E; [|reflexivity].
   exfalso. apply Bool.not_true_iff_false in H. apply H.
   apply existsb_exists. exists kv. split; [exact Hi|]. destruct kv. exact E.
 Qed.
@@ -143,18 +143,18 @@ Proof.
 Qed.
 Lemma lguard_CL nd l a : lguard nd (CL l) = true -> In a l -> lguard nd a = true.
 Proof.
-  unfold lguard. cbn [val_guard has_sat_duration]. intros H Hi. apply andb_true_iff in H. destruct H as [V S].
+  unfold lguard. cbn [val_guard has_wide_nanos]. intros H Hi. apply andb_true_iff in H. destruct H as [V S].
   rewrite forallb_forall in V. rewrite (V _ Hi). cbn [andb].
   destruct nd; [reflexivity|]. cbn [orb] in *. apply negb_true_iff in S.
-  destruct (has_sat_duration a) eqn:E; [|reflexivity].
+  destruct (has_wide_nanos a) eqn:E; [|reflexivity].
   exfalso. apply Bool.not_true_iff_false in S. apply S. apply existsb_exists. exists a. auto.
 Qed.
 Lemma lguard_CMap nd m e : lguard nd (CMap m) = true -> In e m -> lguard nd (snd e) = true.
 Proof.
-  unfold lguard. cbn [val_guard has_sat_duration]. intros H Hi. apply andb_true_iff in H. destruct H as [V S].
+  unfold lguard. cbn [val_guard has_wide_nanos]. intros H Hi. apply andb_true_iff in H. destruct H as [V S].
   rewrite forallb_forall in V. pose proof (V _ Hi) as Ve. destruct e as [k a]. cbn [snd]. rewrite Ve. cbn [andb].
   destruct nd; [reflexivity|]. cbn [orb] in *. apply negb_true_iff in S.
-  destruct (has_sat_duration a) eqn:E; [|reflexivity].
+  destruct (has_wide_nanos a) eqn:E; [|reflexivity].
   exfalso. apply Bool.not_true_iff_false in S. apply S. apply existsb_exists. exists (k, a). auto.
 Qed.
 
@@ -200,11 +200,10 @@ Proof.
 Qed.
 
 Lemma no_sat_dur vx fx ux :
-  has_sat_duration (CM dur_full vx fx ux) = false ->
-  in64 (get_int "seconds" fx * giga) = true /\ in64 (total_nanos fx) = true.
+  has_wide_nanos (CM dur_full vx fx ux) = false -> in32 (get_int "nanos" fx) = true.
 Proof.
-  cbn [has_sat_duration]. rewrite String.eqb_refl. cbn [andb]. intros H. apply orb_false_iff in H. destruct H as [H _].
-  apply negb_false_iff in H. apply andb_true_iff in H. exact H.
+  cbn [has_wide_nanos]. rewrite String.eqb_refl. cbn [andb]. intros H. apply orb_false_iff in H. destruct H as [H _].
+  apply negb_false_iff in H. exact H.
 Qed.
 
 Theorem comp_is_ideal : forall v a b,
@@ -236,15 +235,15 @@ Proof.
     rewrite time_within_fixed_unfold in T. unfold wkt_cases in T. rewrite String.eqb_refl in T.
     cbn [negb andb orb xorb] in T. inversion T as [T1]. reflexivity.
   - (* DurationValueWithin *)
-    cbn [vcfg_guard] in Gv. apply andb_true_iff in Gv. destruct Gv as [D0 _]. apply Z.leb_le in D0.
+    cbn [vcfg_guard] in Gv. apply andb_true_iff in Gv. destruct Gv as [D0 D1]. apply Z.leb_le in D0. apply Z.leb_le in D1.
     apply negb_true_iff in Sa. apply negb_true_iff in Sb.
     assert (W : forall a b, val_guard false a = true -> val_guard false b = true ->
-                has_sat_duration a = false -> has_sat_duration b = false ->
+                has_wide_nanos a = false -> has_wide_nanos b = false ->
                 if ty_differs a b
                 then leaf_wkt dur_full d a b = None /\
                      (snd (duration_within d a b) = true -> fst (duration_within d a b) = false)
                 else (if snd (duration_within d a b) then Some (fst (duration_within d a b)) else None) = leaf_wkt dur_full d a b).
-    { clear a b Va Vb Sa Sb. intros a b Va Vb Sa Sb. unfold duration_within. rewrite duration_within_unfold.
+    { clear a b Va Vb Sa Sb. intros a b Va Vb Sa Sb. rewrite duration_within_unfold.
       destruct a as [|tx vx fx ux| |], b as [|ty vy fy uy| |]; try reflexivity.
       cbn [ty_differs wkt_cases leaf_wkt].
       destruct (String.eqb_spec tx dur_full) as [-> | Nx], (String.eqb_spec ty dur_full) as [-> | Ny]; cbn [negb andb xorb].
@@ -252,11 +251,11 @@ Proof.
         assert (Vx : vx = true) by (cbn [val_guard] in Va; destruct vx; [reflexivity|discriminate Va]).
         assert (Vy : vy = true) by (cbn [val_guard] in Vb; destruct vy; [reflexivity|discriminate Vb]).
         subst vx vy. cbn [negb orb fst snd].
-        destruct (no_sat_dur _ _ _ Sa) as [A1 A2]. destruct (no_sat_dur _ _ _ Sb) as [B1 B2].
+        pose proof (no_sat_dur _ _ _ Sa) as A1. pose proof (no_sat_dur _ _ _ Sb) as B1.
         pose proof (duration_accepts_iff_within d dur_full ux fx dur_full uy fy) as T.
-        unfold duration_within in T. rewrite duration_within_unfold in T. unfold wkt_cases in T. rewrite String.eqb_refl in T.
+        rewrite duration_within_unfold in T. unfold wkt_cases in T. rewrite String.eqb_refl in T.
         cbn [negb andb orb xorb] in T.
-        assert (T' := T D0 eq_refl eq_refl A1 A2 B1 B2). clear T.
+        assert (T' := T (conj D0 D1) eq_refl eq_refl A1 B1). clear T.
         inversion T' as [T1]. reflexivity.
       - destruct (String.eqb_spec dur_full ty) as [E|_]; [congruence|]. cbn [negb fst snd]. auto.
       - destruct (String.eqb_spec tx dur_full) as [E|_]; [congruence|]. cbn [negb fst snd]. auto.
@@ -507,9 +506,9 @@ Qed.
 (* the hypotheses on a top-level message: what the judge's guard says, and no saturating Duration
    where a DurationValueWithin is configured *)
 Definition tree_ok (e : ecfg) (x : option cval) : bool :=
-  opt_guard x && (cfg_nd (cfg_vs e) || negb (opt_sat x)).
+  opt_guard x && (cfg_nd (cfg_vs e) || negb (opt_wide x)).
 
-Lemma top_parts nd a : wf a = true -> val_guard true a = true -> (nd || negb (has_sat_duration a)) = true ->
+Lemma top_parts nd a : wf a = true -> val_guard true a = true -> (nd || negb (has_wide_nanos a)) = true ->
   parts_ok (lguard nd) a.
 Proof.
   intros W V S. destruct a as [s|ty v fs u|l|m]; try discriminate W; [exact I|]. cbn [parts_ok]. intros kv Hi.
@@ -528,7 +527,7 @@ Proof.
   unfold ecfg_guard, has_durp in Ge, Nd.
   destruct e as [vs|vs]; cbn [model_e ideal_e cfg_vs] in *; rewrite cmp_equal_is_spec by assumption;
     destruct x as [a|], y as [b|]; try reflexivity; cbn [spec_top]; f_equal;
-    cbn [opt_guard opt_sat] in Gx, Gy, Sx, Sy;
+    cbn [opt_guard opt_wide] in Gx, Gy, Sx, Sy;
     apply andb_true_iff in Gx; destruct Gx as [Wa Va]; apply andb_true_iff in Gy; destruct Gy as [Wb Vb].
   - apply (spec_congr ignored _ _ (lguard (cfg_nd vs)) (lguard_CM _) (lguard_CL _) (lguard_CMap _)).
     + intros p q Gp Gq. apply and_sim; assumption.
@@ -554,7 +553,7 @@ Proof.
   unfold ecfg_guard, has_durp in Ge, Nd. cbn [cfg_vs] in *.
   unfold model_tree, ideal_tree. rewrite cmp_equal_is_spec by assumption.
   destruct x as [a|], y as [b|]; try reflexivity; cbn [spec_top]; f_equal;
-    cbn [opt_guard opt_sat] in Gx, Gy, Sx, Sy;
+    cbn [opt_guard opt_wide] in Gx, Gy, Sx, Sy;
     apply andb_true_iff in Gx; destruct Gx as [Wa Va]; apply andb_true_iff in Gy; destruct Gy as [Wb Vb].
   apply (spec_congr ignored _ _ (lguard (cfg_nd (tree_leaves t))) (lguard_CM _) (lguard_CL _) (lguard_CMap _)).
   - intros p q Gp Gq. apply tree_sim; assumption.
